@@ -504,6 +504,10 @@ def _transfer(blk, st):
             if rv["k"] == "use" and rv["op"].get("k") in ("move", "copy") and not rv["op"]["place"]["proj"] and rv["op"]["place"]["local"] in st:
                 st[l] = st[rv["op"]["place"]["local"]]
                 continue
+            # a boolean (or small integer) constant: `a || b` / `a && b` leave one on their short-circuit edge
+            if rv["k"] == "use" and rv["op"].get("k") == "const" and isinstance(rv["op"].get("val"), int) and not isinstance(rv["op"].get("val"), bool) and 0 <= rv["op"]["val"] <= 1:
+                st[l] = ("c", rv["op"]["val"])
+                continue
         st.pop(l, None)
     t = blk["term"]
     if t["k"] == "call":
@@ -591,6 +595,22 @@ def thread_results(body, types=None, max_clones=400):
                         IN[x] = meet
                         work.append(x)
         changed = False
+        # resolve switches on locals holding a known constant
+        for i, b in enumerate(blocks):
+            if IN[i] is None:
+                continue
+            t = b["term"]
+            if t["k"] != "switch" or t["discr"].get("k") not in ("move", "copy") or t["discr"]["place"]["proj"]:
+                continue
+            st2 = _transfer({"stmts": b["stmts"], "term": {"k": "goto", "target": 0}}, IN[i])
+            v = st2.get(t["discr"]["place"]["local"])
+            if isinstance(v, tuple) and v[0] == "c" and len(set(_succs(t))) > 1:
+                tgt = next((bb for vv, bb in t["targets"] if vv == v[1]), t["otherwise"])
+                b["term"] = {"k": "goto", "target": tgt, "l": t.get("l", 0), "x": False}
+                changed = True
+        if changed:
+            changed_any = True
+            continue
         # resolve switches on known discriminants
         for i, b in enumerate(blocks):
             if IN[i] is None:
@@ -611,7 +631,7 @@ def thread_results(body, types=None, max_clones=400):
                 if s["k"] == "assign" and s["rv"]["k"] == "discr" and s["rv"]["place"]["local"] == subj and s["place"]["local"] == t["discr"]["place"]["local"]:
                     val = st2.get(subj)
                 st2 = _transfer({"stmts": [s], "term": {"k": "goto", "target": 0}}, st2)
-            if val is not None:
+            if val is not None and not isinstance(val, tuple):
                 tgt = next((bb for vv, bb in t["targets"] if vv == val), t["otherwise"])
                 if len(set(_succs(t))) > 1:
                     b["term"] = {"k": "goto", "target": tgt, "l": t.get("l", 0), "x": False}
